@@ -37,11 +37,14 @@ var keyPool = []string{"a", "b", "c", "k1", "k2", "k3", "user:1", "user:2", "{t}
 
 type Cmd struct {
 	Keys []int `json:"keys"` // indexes into keyPool: 1 key = SET, several (same slot) = MSET
+	// Custom: a command the tool's key tables do not know (VERIFTOUCH key value; the double logs it as a generic write): the cluster client asks a
+	// node for its keys (COMMAND GETKEYS) while the batch is being built. Not part of any key's judged sequence.
+	Custom bool `json:"custom,omitempty"`
 }
 
 type Event struct {
 	AfterReq int    `json:"afterReq"` // fires once the cluster has processed this many requests in total
-	Kind     string `json:"kind"`     // start | finish | move (finish without MIGRATING state)
+	Kind     string `json:"kind"`     // start | finish | move (finish without MIGRATING state) | down (node Dst stops listening and drops its connections)
 	Key      int    `json:"key"`      // the slot of this pool key migrates
 	Dst      int    `json:"dst"`
 	Moved    []int  `json:"moved"` // start: pool keys of that slot that already live at the destination
@@ -56,8 +59,16 @@ type Case struct {
 	Cmds     []Cmd   `json:"cmds"`
 	Events   []Event `json:"events"`
 	DelayUs  []int   `json:"delayUs"` // per node request latency
+	// latency of CLUSTER SLOTS (the client's asynchronous topology refresh) and of COMMAND GETKEYS (asked while a batch is being built)
+	SlotsDelayUs  int `json:"slotsDelayUs,omitempty"`
+	LookupDelayUs int `json:"lookupDelayUs,omitempty"`
+	// SlowLookup: scripted history in which the topology refresh that follows a MOVED reply lands while the next batch is being built
+	SlowLookup bool `json:"slowLookup,omitempty"`
 	// Rejoin: scripted history in which a node loses all its slots and gets one back
 	Rejoin bool `json:"rejoin,omitempty"`
+	// OwnerDown: scripted history in which a slot is handed to a node that cannot be reached (it went down right after the hand-over): the
+	// old owner answers MOVED naming an address that refuses connections
+	OwnerDown bool `json:"ownerDown,omitempty"`
 }
 
 func slotOf(i int) int { return int(hashslot.Slot([]byte(keyPool[i]))) }
@@ -130,6 +141,65 @@ func genCase(t *rapid.T) Case {
 			c.Rejoin = true
 		}
 	}
+	if !c.Rejoin && rapid.IntRange(0, 7).Draw(t, "newOwnerUnreachable") == 0 {
+		// node 1 owns one slot that the stream never writes to (so that the client knows the node and nothing else is sent to it); the slot of
+		// ka is handed to node 1 at the moment node 1 goes down. Every later write on ka is answered MOVED <node 1> by its old owner.
+		ka := rapid.IntRange(0, len(keyPool)-1).Draw(t, "downKeyA")
+		kb := rapid.IntRange(0, len(keyPool)-1).Draw(t, "downKeyB")
+		if slotOf(ka) != slotOf(kb) && slotOf(kb) > 0 && slotOf(kb) < 16383 {
+			c.Nodes, c.Bounds = 3, []int{slotOf(kb), slotOf(kb) + 1}
+			c.Txn = false
+			var pool []int
+			for j := range keyPool {
+				if slotOf(j) != slotOf(kb) {
+					pool = append(pool, j)
+				}
+			}
+			c.Cmds = nil
+			for i, n := 0, rapid.IntRange(6, 24).Draw(t, "downCmds"); i < n; i++ {
+				k := ka
+				if rapid.IntRange(0, 2).Draw(t, "downOther") == 0 {
+					k = rapid.SampledFrom(pool).Draw(t, "downKey")
+				}
+				c.Cmds = append(c.Cmds, Cmd{Keys: []int{k}})
+			}
+			c.Cmds = append(c.Cmds, Cmd{Keys: []int{ka}}) // at least one write on ka behind the hand-over
+			r1 := rapid.IntRange(0, len(c.Cmds)-2).Draw(t, "downAt")
+			c.Events = []Event{
+				{AfterReq: r1, Kind: "down", Dst: 1},
+				{AfterReq: r1, Kind: "move", Key: ka, Dst: 1},
+			}
+			c.DelayUs = []int{0, 0, 0}
+			c.OwnerDown = true
+		}
+	}
+	if !c.Rejoin && !c.OwnerDown && rapid.IntRange(0, 7).Draw(t, "refreshWhileBatchIsBuilt") == 0 {
+		// blocking sending; the stream alternates writes on ka with a command the key tables do not know, so that building a batch takes a
+		// COMMAND GETKEYS round trip between two writes on ka; the slot of ka changes hands once; the topology refresh that the first MOVED
+		// reply triggers (asynchronous, CLUSTER SLOTS is slow) lands while the next batch is being built
+		ka := rapid.IntRange(0, len(keyPool)-1).Draw(t, "lookupKeyA")
+		owner := 0
+		for owner < len(c.Bounds) && slotOf(ka) >= c.Bounds[owner] {
+			owner++
+		}
+		dst := (owner + rapid.IntRange(1, c.Nodes-1).Draw(t, "lookupDst")) % c.Nodes
+		c.Txn, c.Pipeline = false, false
+		c.Batch = uint(rapid.SampledFrom([]int{4, 8}).Draw(t, "lookupBatch"))
+		c.Cmds = nil
+		for i, n := 0, rapid.IntRange(6, 12).Draw(t, "lookupRounds"); i < n; i++ {
+			c.Cmds = append(c.Cmds, Cmd{Keys: []int{ka}})
+			c.Cmds = append(c.Cmds, Cmd{Keys: []int{rapid.IntRange(0, len(keyPool)-1).Draw(t, "lookupKeyX")}, Custom: true})
+			if rapid.IntRange(0, 3).Draw(t, "lookupExtra") == 0 {
+				c.Cmds = append(c.Cmds, Cmd{Keys: []int{rapid.IntRange(0, len(keyPool)-1).Draw(t, "lookupKeyY")}})
+			}
+		}
+		c.Cmds = append(c.Cmds, Cmd{Keys: []int{ka}})
+		c.Events = []Event{{AfterReq: rapid.IntRange(2, len(c.Cmds)).Draw(t, "lookupMoveAt"), Kind: "move", Key: ka, Dst: dst}}
+		c.DelayUs = make([]int, c.Nodes)
+		c.SlotsDelayUs = rapid.SampledFrom([]int{1000, 2000, 3000}).Draw(t, "slotsDelay")
+		c.LookupDelayUs = rapid.SampledFrom([]int{4000, 6000}).Draw(t, "lookupDelay")
+		c.SlowLookup = true
+	}
 	return c
 }
 
@@ -148,11 +218,16 @@ func run(c Case) (fs []failure, inconc string, facts map[string]bool, hist any) 
 	cs.SetLayout(c.Bounds)
 	for i, n := range cs.Nodes {
 		n.GenericWrites = true
-		if d := c.DelayUs[i]; d > 0 {
+		if d := c.DelayUs[i]; d > 0 || c.SlotsDelayUs > 0 || c.LookupDelayUs > 0 {
 			dd := time.Duration(d) * time.Microsecond
 			n.Delay = func(cmd string, args [][]byte) time.Duration {
-				if cmd == "cluster" || cmd == "ping" {
+				switch cmd {
+				case "ping":
 					return 0
+				case "cluster":
+					return time.Duration(c.SlotsDelayUs) * time.Microsecond
+				case "command":
+					return time.Duration(c.LookupDelayUs) * time.Microsecond
 				}
 				return dd
 			}
@@ -173,6 +248,9 @@ func run(c Case) (fs []failure, inconc string, facts map[string]bool, hist any) 
 			fired.Add(1)
 			slot := slotOf(e.Key)
 			switch e.Kind {
+			case "down":
+				// asynchronously: Close takes the node's lock, and this hook may be running under it
+				go cs.Nodes[e.Dst].Close()
 			case "start":
 				var mk []string
 				for _, j := range e.Moved {
@@ -197,7 +275,9 @@ func run(c Case) (fs []failure, inconc string, facts map[string]bool, hist any) 
 	total := 0
 	for i, cm := range c.Cmds {
 		v := fmt.Sprintf("v%d", i)
-		if len(cm.Keys) == 1 {
+		if cm.Custom {
+			stream = append(stream, resp.CmdS("VERIFTOUCH", keyPool[cm.Keys[0]], v)...)
+		} else if len(cm.Keys) == 1 {
 			k := keyPool[cm.Keys[0]]
 			stream = append(stream, resp.CmdS("SET", k, v)...)
 			perKey[k] = append(perKey[k], v)
@@ -238,7 +318,7 @@ func run(c Case) (fs []failure, inconc string, facts map[string]bool, hist any) 
 		for _, nd := range cs.Nodes {
 			lg, _ := nd.SnapshotLog()
 			for _, e := range lg {
-				if e.Cmd == "set" || e.Cmd == "mset" {
+				if e.Cmd == "set" || e.Cmd == "mset" || e.Cmd == "veriftouch" {
 					n++
 				}
 			}
@@ -294,6 +374,17 @@ func run(c Case) (fs []failure, inconc string, facts map[string]bool, hist any) 
 	redirects, tryagains := 0, 0
 	redirected := map[string]bool{}
 	tryagained := map[string]bool{}
+	// the node each write was sent to FIRST (before any redirection handling), from the request logs of all nodes in cluster-wide order
+	type firstReq struct {
+		seq  int
+		node string
+	}
+	first := map[string]firstReq{}
+	sawFirst := func(kv string, seq int, node string) {
+		if f, ok := first[kv]; !ok || seq < f.seq {
+			first[kv] = firstReq{seq, node}
+		}
+	}
 	var reqLog []string
 	for _, nd := range cs.Nodes {
 		lg, rq := nd.SnapshotLog()
@@ -303,6 +394,13 @@ func run(c Case) (fs []failure, inconc string, facts map[string]bool, hist any) 
 			}
 		}
 		for _, r := range rq {
+			if r.Cmd == "set" && len(r.Args) >= 2 {
+				sawFirst(string(r.Args[0])+"\x00"+string(r.Args[1]), r.Seq, nd.Addr())
+			} else if r.Cmd == "mset" {
+				for i := 0; i+1 < len(r.Args); i += 2 {
+					sawFirst(string(r.Args[i])+"\x00"+string(r.Args[i+1]), r.Seq, nd.Addr())
+				}
+			}
 			if strings.HasPrefix(r.Reply, "-MOVED") || strings.HasPrefix(r.Reply, "-ASK") {
 				redirects++
 				// which writes were answered with a redirection (and therefore executed again by the tool's redirection handling)
@@ -321,6 +419,9 @@ func run(c Case) (fs []failure, inconc string, facts map[string]bool, hist any) 
 						tryagained[string(r.Args[i])+"\x00"+string(r.Args[i+1])] = true
 					}
 				}
+			}
+			if r.Cmd == "hset" && !strings.HasPrefix(r.Reply, "-") {
+				continue // checkpoint writes: they would push the part of the history that matters out of the stored tail
 			}
 			reqLog = append(reqLog, fmt.Sprintf("%06d %s %s %v -> %s", r.Seq, nd.Addr(), r.Cmd, r.ArgsS, r.Reply))
 		}
@@ -358,25 +459,41 @@ func run(c Case) (fs []failure, inconc string, facts map[string]bool, hist any) 
 			}
 			if j > prev+1 {
 				sig := "per-key-order-skips"
-				if redirects > 0 && !c.Txn {
-					// known finding: a command answered MOVED / ASK is executed again at the indicated node AFTER later commands on the same key
-					// have already reached that node directly (pipelined: later batches dispatched after the slot map was refreshed; blocking: a
-					// later command of the same batch that was routed with the refreshed map)
-					sig = "per-key-order-skips:redirect-reexecution"
+				if reported && tryagains > 0 && tryagained[k+"\x00"+src[prev+1]] {
+					// known finding (consulted first: it is identified by the OVERTAKEN write, whatever happened to the overtaking one): a
+					// multi-key command answered TRYAGAIN - directly, or at the end of a chain of redirections (ASK to the importing node,
+					// MOVED back because the migration was re-targeted, TRYAGAIN at the owner) - is an error reply that Send reports at the end
+					// of the batch, while later commands of the same batch on a key of that command are executed, directly or through their
+					// own redirections. A cluster batch is flushed to a node as plain commands in the transactional configuration too
+					// (thorough tier, 1 case in 12 404), so the rule does not depend on the mode
+					sig = "per-key-order-skips:tryagain-in-batch"
+				} else if redirects > 0 && !c.Txn {
 					late := false
 					for _, w := range obs[i+1:] {
 						if w == src[prev+1] {
 							late = true
 						}
 					}
-					if !late && !reported {
-						// NOT the known finding either: there the redirected write is executed again, only too late; here it was answered with a
-						// redirection, never executed anywhere, and Send reported nothing
+					switch {
+					case !late && !reported:
+						// the overtaken write was answered with a redirection, never executed anywhere, and Send reported nothing
 						sig = "redirected-write-never-executed"
-					} else if redirected[k+"\x00"+v] && redirected[k+"\x00"+src[prev+1]] {
-						// NOT the known finding: the write that overtook was itself answered with a redirection, i.e. both writes went through the
-						// tool's redirection handling, which re-executes the redirected commands of a node's replies one by one in reply order
+					case redirected[k+"\x00"+v] && redirected[k+"\x00"+src[prev+1]]:
+						// the write that overtook was itself answered with a redirection, i.e. both writes went through the tool's redirection
+						// handling, which re-executes redirected commands one by one in reply order (and the commands of one batch on one slot
+						// are in one node's replies, a786312)
 						sig = "per-key-order-skips:redirected-commands-reordered"
+					case !c.Pipeline && first[k+"\x00"+v].node != first[k+"\x00"+src[prev+1]].node:
+						// blocking sending: a batch, redirections included, is complete before the next one is built, so the two writes were in
+						// ONE batch, and they were sent to two different nodes (the slot table was refreshed between their Put calls; the node
+						// batches of a batch are handled concurrently). A batch keeps the commands of a slot on one node since a786312
+						sig = "per-key-order-skips:same-batch-two-nodes"
+					default:
+						// known finding: a command answered MOVED / ASK is executed again at the indicated node AFTER later commands on the same
+						// key were executed directly - (a) pipelined sending: later batches, dispatched once the slot table was refreshed, went
+						// straight to the new owner; (b) any sending mode: later commands of the same flush to the SAME node, which became the
+						// owner (again) between two requests of that flush
+						sig = "per-key-order-skips:redirect-reexecution"
 					}
 				} else if tryagains > 0 && tryagained[k+"\x00"+src[prev+1]] {
 					// known finding: a multi-key command answered TRYAGAIN (one of its keys already migrated) while a later single-key
@@ -426,6 +543,8 @@ func check(t pbt.TB, c Case) {
 	st.ClassIf(c.Txn, "txn")
 	st.ClassIf(c.Pipeline, "pipeline")
 	st.ClassIf(c.Rejoin, "node-leaves-and-rejoins")
+	st.ClassIf(c.OwnerDown, "new-owner-unreachable")
+	st.ClassIf(c.SlowLookup, "refresh-lands-while-batch-is-built")
 	if facts["redirect"] && facts["spans-nodes"] {
 		st.NonTrivial(cj)
 	} else {
